@@ -31,7 +31,10 @@ func (e freeEntry) match(scenario, round string, broadcast bool, class, op strin
 		return false
 	}
 	if e.class != "" && e.class != class {
-		return false
+		// a trailing * makes the entry a prefix
+		if !(len(e.class) > 0 && e.class[len(e.class)-1] == '*' && len(class) >= len(e.class)-1 && class[:len(e.class)-1] == e.class[:len(e.class)-1]) {
+			return false
+		}
 	}
 	if e.op != "" && e.op != op {
 		return false
@@ -39,4 +42,24 @@ func (e freeEntry) match(scenario, round string, broadcast bool, class, op strin
 	return true
 }
 
-var freeList = []freeEntry{}
+// The free-list. Established on the unchanged tree with the enumerated survey
+// (C04_SURVEY=1, TestFaultsEnumerated) and by reading each protocol; every entry says why the
+// leaf is not bound. Entries are as narrow as the reason allows.
+var freeList = []freeEntry{
+	{scenarioPrefix: "session", round: "SessionSetupR1", class: "/Ck",
+		why: "Round1Broadcast.Ck is a fresh commitment key chosen by its sender; nothing earlier binds it. Peers commit to the sender under the key they received; if it was altered, only the sender's own round 4 fails (the deviator's verdict is not read) and the honest parties still end with one consistent context (checked by S3)."},
+	{scenarioPrefix: "lindell17", round: "Lindell17SignRound4", class: "/c3/c@5017/arithmetic*",
+		why: "the ciphertext c3 carries a self-description of its group (modulus N^2); the primary decrypts with its own key and checks membership of the VALUE in its own group, so the declared modulus is redundant metadata; the released signature is still verified (S3)."},
+	{scenarioPrefix: "lindell17", round: "Lindell17SignRound4", class: "/c3/c@5017/n*",
+		why: "same as above: redundant description of the ciphertext's group"},
+	{scenarioPrefix: "dkls23", round: "DKLS23SignRound2", class: "/otR2/phi/*[]", op: "extend",
+		why: "a surplus trailing element of a per-instance array is ignored by the receiver; no bound value changes and the released signature verifies (S3)"},
+	{scenarioPrefix: "dkls23", round: "DKLS23SignRound3", class: "/mulR1/OtR1/challengeResponse/t[]", op: "extend",
+		why: "surplus trailing row of the extension's challenge response is ignored (the first kappa rows are checked)"},
+	{scenarioPrefix: "dkls23", round: "DKLS23SignRound3", class: "/mulR1/OtR1/u[]", op: "extend",
+		why: "surplus trailing row of the extension's correlation message is ignored"},
+	{scenarioPrefix: "dkls23", round: "DKLS23SignRound4", class: "/psi*",
+		why: "psi is bound only through the aggregator's final verification (DKLs23 design: the recipient cannot check it locally); the verdict 'detected by the aggregator' is the designed detection point"},
+	{scenarioPrefix: "redistribute-to-unanimity", from: 3,
+		why: "party 3 is a next-only holder in this scenario: its round-1/2 messages carry no protocol content (Validate ignores non-previous shareholders), so altering them changes nothing"},
+}
